@@ -166,3 +166,71 @@ func H_wound() {
 	rt.Assert(rt.BytesEqual(inner.w.buf.Bytes(), W), "wound mode passes all data through")
 	rt.Reach("end")
 }
+
+// multiPool records per file.
+type multiPool struct {
+	c  *tlc.Container
+	ws map[int64]*recWriter
+}
+
+func (p *multiPool) GetSize(i int64) int64                        { return p.c.Files[i].Size }
+func (p *multiPool) GetReader(i int64) (io.Reader, error)         { return bytes.NewReader(nil), nil }
+func (p *multiPool) GetReadSeeker(i int64) (io.ReadSeeker, error) { return bytes.NewReader(nil), nil }
+func (p *multiPool) Close() error                                 { return nil }
+func (p *multiPool) GetWriter(i int64) (io.WriteCloser, error) {
+	w := &recWriter{}
+	p.ws[i] = w
+	return w, nil
+}
+
+// H_interleave: two files of one validating pool written through two writers that are open at the same time,
+// their Write calls interleaved in every order (a WritablePool may hand out several writers); the first file's
+// content is the signed one, the second one's is signed or differs in its last byte. Params n0, n1, bad.
+func H_interleave() {
+	hlib.SetCopyBuf()
+	B := hlib.B()
+	n0, n1 := rt.Param("n0"), rt.Param("n1")
+	S0, S1 := rt.Bytes("signed0", n0), rt.Bytes("signed1", n1)
+	root := rt.TempDir()
+	(&hlib.Build{Files: []hlib.File{{Path: "a", Data: S0}, {Path: "b", Data: S1}}}).Write(root + "/s")
+	sig := hlib.SigOf(root + "/s")
+	inner := &multiPool{c: sig.Container, ws: map[int64]*recWriter{}}
+	vp := &pwr.ValidatingPool{Pool: inner, Container: sig.Container, Signature: sig}
+	W1 := append([]byte{}, S1...)
+	bad := rt.Param("bad") == 1 && n1 > 0
+	if bad {
+		W1[n1-1] = rt.Byte("other")
+		rt.Assume(W1[n1-1] != S1[n1-1])
+	}
+	w0, err := vp.GetWriter(0)
+	hlib.Must(err, "GetWriter 0")
+	w1, err := vp.GetWriter(1)
+	hlib.Must(err, "GetWriter 1")
+	p0, p1 := 0, 0
+	fail0, fail1 := false, false
+	for p0 < n0 || p1 < n1 {
+		first := p1 >= n1 || (p0 < n0 && rt.Choice("who", 2) == 0)
+		if first {
+			_, err := w0.Write(S0[p0 : p0+1])
+			fail0 = fail0 || err != nil
+			p0++
+		} else {
+			_, err := w1.Write(W1[p1 : p1+1])
+			fail1 = fail1 || err != nil
+			p1++
+		}
+	}
+	fail0 = (w0.Close() != nil) || fail0
+	fail1 = (w1.Close() != nil) || fail1
+	rt.Assert(!fail0, "the file written with its signed content passes whatever the other writer does")
+	rt.Assert(rt.BytesEqual(inner.ws[0].buf.Bytes(), S0), "its bytes reach the inner pool unchanged")
+	if bad {
+		rt.Assert(fail1, "the differing file is refused whatever the other writer does")
+		lastBlockStart := ((n1 - 1) / B) * B
+		rt.Assert(rt.BytesEqual(inner.ws[1].buf.Bytes(), S1[:lastBlockStart]), "nothing from its bad block reaches the inner pool")
+	} else {
+		rt.Assert(!fail1, "the second file written with its signed content passes too")
+		rt.Assert(rt.BytesEqual(inner.ws[1].buf.Bytes(), S1), "and its bytes reach the inner pool unchanged")
+	}
+	rt.Reach("end")
+}
